@@ -171,7 +171,7 @@ def _episodes(spec, ctx):
             if decision != "accept":
                 ctx.distinct(label, var, decision, mask_kind, extreme)
             for _ in range(int(rng.integers(1, 11))):
-                run.random_step({"read": 6, "set": 2, "put": 2, "revert": 1, "prevert": 2, "clone": 0.5, "device": 0.2})
+                run.random_step({"read": 6, "set": 2, "put": 2, "revert": 1, "prevert": 2, "clone": 0.5, "device": 0.2, "badset": 0.7})
                 run.quiescent()
                 if run.dead:
                     break
